@@ -298,6 +298,48 @@ func finalAllDelivered(w *World, x *vrt.Exec) {
 	}
 	check("c2s", w.C, w.S)
 	check("s2c", w.S, w.C)
+	if len(w.findings) > 0 || closedBeforeDrain(w, x) != "" {
+		return
+	}
+	// A Send that has been blocked for a minute on an open connection
+	// whose transport has been reliable all that time, while the peer's
+	// application is waiting in Recv (so it is not back-pressure): Send
+	// blocks only while the window is full, and a full window drains
+	// within a few resend timeouts. (Such a message was never "accepted",
+	// so the check above does not see it.)
+	drainAt := x.Elapsed - w.sc.Cfg.DrainTime
+	stalled := func(dir string, from, to *Endpoint) {
+		peerWaiting := false
+		for _, c := range to.calls("recv") {
+			if !c.Returned || c.End >= drainAt {
+				peerWaiting = true
+			}
+		}
+		if !peerWaiting {
+			return
+		}
+		for _, c := range from.calls("send") {
+			if c.Returned && c.End < drainAt {
+				continue
+			}
+			since := c.Start
+			if w.lastFaultAt > since {
+				since = w.lastFaultAt
+			}
+			if drainAt-since >= 60*time.Second {
+				snap := w.endSnap[0] // (taken inside the bubble, before the drain)
+				if from == w.S {
+					snap = w.endSnap[1]
+				}
+				w.fail("progress/send-blocked/"+dir,
+					"%s: Send called at %v was still blocked %v later (transport reliable since %v, both ends open, the peer waiting in Recv); sender's queue size %d of window %d",
+					dir, c.Start, drainAt-c.Start, w.lastFaultAt, snap.Size, snap.N)
+				return
+			}
+		}
+	}
+	stalled("c2s", w.C, w.S)
+	stalled("s2c", w.S, w.C)
 }
 
 // closedBeforeDrain reports which endpoint had shut down before the harness
